@@ -106,6 +106,10 @@ def main():
             lines = [l for l in out.splitlines() if l.startswith("VIOLATION") or l.startswith("OK ") or l.startswith("KNOWN")]
             res["checks"][i] = {"exit": "violation" if any(l.startswith("VIOLATION") for l in lines) else "ok",
                                 "lines": [l[:300] for l in lines][:6], "detail": out[-800:]}
+        # the per-scratch harness binaries are of no use once the checks have run
+        for f in os.listdir(os.path.join(ROOT, "build")) if os.path.isdir(os.path.join(ROOT, "build")) else []:
+            if f.startswith("panharness-tmp_seedeval_" + name.replace("-", "_")):
+                os.remove(os.path.join(ROOT, "build", f))
         dst = os.path.join(ROOT, "seeded", name)
         os.makedirs(dst, exist_ok=True)
         for f in os.listdir(src):
